@@ -525,7 +525,10 @@ class BGP(protocol.Protocol):
         LOG.info("[%s]Neighbor's Capabilities:", self.factory.peer_addr)
         for key in cfg.CONF.bgp.running_config['capability']['remote']:
             if key == 'four_bytes_as':
-                self.fourbytesas = True
+                # RFC 6793: AS numbers are 4 octets wide only if BOTH speakers advertised the capability
+                if cfg.CONF.bgp.running_config['capability']['local'].get('four_bytes_as') or \
+                        self.factory.my_asn > 65535:
+                    self.fourbytesas = True
             elif key == 'add_path':
                 if cfg.CONF.bgp.running_config['capability']['remote']['add_path'] in \
                         ['ipv4_send', 'ipv4_both']:
